@@ -67,6 +67,8 @@ class Opts:
         self.source_rs = True  # False: every Source gets rs = 0
         self.similar_sources = False  # all sources within x0.8..1.25 of the first one
         self.leaf_loads = True
+        self.mux_focus = False  # a PMux in most systems, >= 2 inputs, 2-D ig table, and the
+        #                         first declared input often a dead source
         self.avoid = ()
         for k, v in kw.items():
             if not hasattr(self, k):
@@ -126,10 +128,10 @@ class _Gen:
         for _ in range(nn):
             cands = [n for n in self.nodes if n["kind"] not in S.LOADS]
             want_mux = (o.mux and "PMux" in o.kinds and not have_mux
-                        and self.chance(1, 6))
+                        and self.chance(3 if o.mux_focus else 1, 6))
             if want_mux:
                 kmax = min(4, len(cands))
-                k = draw(st.integers(1, kmax))
+                k = draw(st.integers(min(2, kmax) if o.mux_focus else 1, kmax))
                 picks = draw(st.lists(st.integers(0, len(cands) - 1), min_size=k,
                                       max_size=k, unique=True))
                 parents = [cands[j]["name"] for j in picks]
@@ -312,7 +314,13 @@ class _Gen:
                 iin[name] = (abs(p["vo"]) * io / (vi * eff0)) if io > 0 else p.get("iq", 0.0)
             elif k in ("LinReg", "PSwitch", "PMux"):
                 ig0 = self.small(io if io > 0 else 1e-3)
-                if ig0 or self.chance(1, 2):
+                if o.mux_focus and k == "PMux" and o.tables and not self.chance(1, 4):
+                    if ig0 == 0.0:
+                        ig0 = (io if io > 0 else 1e-3) * 0.01
+                    p["ig"] = make_table(draw, "ig", ig0, io, vi, 0.3, 2.0, None,
+                                         o.table_min_step,
+                                         dims=(draw(st.integers(2, 4)), draw(st.integers(2, 5))))
+                elif ig0 or self.chance(1, 2):
                     p["ig"] = self._maybe_table("ig", ig0, io, vi, 0.3, 2.0) if ig0 else 0.0
                 if o.sleep:
                     iis = self.small(io if io > 0 else 1e-3, 1e-5, 1e-2)
@@ -378,6 +386,13 @@ class _Gen:
             for n in nodes:
                 if n["kind"] == "Source" and self.chance(1, 4):
                     n["params"]["vo"] = 0.0 if self.chance(1, 2) else -0.0
+        if o.mux_focus:
+            nm = S.node_map(spec)
+            for n in nodes:
+                if n["kind"] == "PMux" and len(n["parents"]) > 1 and self.chance(1, 2):
+                    first = nm[n["parents"][0]]
+                    if first["kind"] == "Source":
+                        first["params"]["vo"] = 0.0
         if o.groups and self.chance(3, 4):
             for n in nodes:
                 if self.chance(2, 3):
